@@ -131,6 +131,18 @@ def gen_time(seed: int, n_random: int) -> List[Dict[str, Any]]:
                               [horizon - _dt.timedelta(seconds=1), horizon - _dt.timedelta(seconds=1, microseconds=1)]
                     for t in targets:
                         calls.append({"e": "time", "now": now, "T": cd.dt_to_inst(t), "spell": spells[len(calls) % len(spells)]})
+    # now / T straddling the repeated hour of every backward zone transition, spelled in that zone (zoneinfo and pytz)
+    for zname in ("Europe/Berlin", "America/New_York", "Australia/Lord_Howe", "America/St_Johns", "Europe/London", "America/Sao_Paulo"):
+        tab = cd.zone_table(zname)
+        backs = [tab[i] for i in range(1, len(tab)) if tab[i]["off"] < tab[i - 1]["off"]]
+        for tr in backs[:: max(1, len(backs) // 8)]:
+            t0 = cd.inst_to_dt(tr["d"], tr["s"], 0)
+            for bx, ay in ((5, 5), (50, 20), (1, 59), (30, 45), (59, 1), (20, 0)):
+                for extra_us in (0, 400000):
+                    nowdt = t0 - _dt.timedelta(minutes=bx) + _dt.timedelta(microseconds=extra_us)
+                    for tdt in (t0 + _dt.timedelta(minutes=ay), nowdt + _dt.timedelta(seconds=20), nowdt + _dt.timedelta(seconds=45, microseconds=1)):
+                        for sp in (["zi", zname], ["pytz", zname]):
+                            calls.append({"e": "time", "now": cd.dt_to_inst(nowdt), "T": cd.dt_to_inst(tdt), "spell": sp})
     for _ in range(n_random):
         day = rng.randint(16436, 24100)
         now = {"d": day, "s": rng.randint(0, 86399), "u": rng.choice([0, rng.randint(0, 999999)])}
